@@ -1,6 +1,7 @@
 import ErgoVerif.Drive.Util
 import ErgoVerif.Drive.TM
 import ErgoVerif.Model.LinkOps
+import ErgoVerif.Generated.LinkRace
 namespace ErgoVerif.Drive.LinkOps
 open ErgoVerif.Drive ErgoVerif.TM ErgoVerif.LinkOps
 open ErgoVerif.Drive.TM (pid? target? showPid showTarget showList)
@@ -30,7 +31,7 @@ def line (w : World) (l : String) : World × String :=
       | _, _ => (w, "bad-op")
     else if op = "race" then
       let ls := t.toList.filterMap fun ch => if ch = 'l' then some Race.Lbl.lStep else if ch = 't' then some Race.Lbl.tStep else none
-      match Race.run (c = "1") Race.init ls with
+      match Race.run (if c = "g" then ErgoVerif.Gen.LinkRace.recheckAfterAdd else c = "1") Race.init ls with
       | some cf => (w, s!"l={repr cf.l} t={repr cf.t} rel={cf.rel} notified={cf.notified}")
       | none => (w, "disabled")
     else
